@@ -268,7 +268,7 @@ where
 pub fn c07(ctx: &Ctx) {
 	let mut rep = Report::new("C07");
 	// (1) entry points over the universe
-	let n = ctx.budget(400, 15_000);
+	let n = ctx.budget(2500, 60_000);
 	for ops in ctx.my_types() {
 		if ctx.mode == "bulk-only" || (ctx.is_slow() && !crate::core_props::slow_subset(ops)) {
 			continue;
@@ -382,7 +382,7 @@ const BASE_NAMES: [&str; 5] = ["spy-known-len", "unknown-len", "IoReader<Cursor>
 pub fn c08(ctx: &Ctx) {
 	let mut rep = Report::new("C08");
 	let words = all_words();
-	let n = ctx.budget(60, 2500);
+	let n = ctx.budget(400, 8000);
 	let mut combos = std::collections::HashSet::new();
 	for ops in ctx.my_types() {
 		if ops.dec.is_none() {
@@ -475,7 +475,7 @@ pub fn c08(ctx: &Ctx) {
 	// zero-copy observation
 	if ctx.shard == 0 {
 		let mut rng = ctx.rng_for("zero-copy");
-		for _ in 0..ctx.budget(200, 5000) {
+		for _ in 0..ctx.budget(1000, 20_000) {
 			let n = rng.usize_below(200);
 			let payload = rng.bytes(n);
 			let enc = payload.encode();
@@ -504,7 +504,7 @@ pub fn c08(ctx: &Ctx) {
 
 pub fn c14(ctx: &Ctx) {
 	let mut rep = Report::new("C14");
-	let n = ctx.budget(150, 6000);
+	let n = ctx.budget(1000, 20_000);
 	let types = ctx.my_types();
 	for ops in &types {
 		if ops.dec.is_none() {
@@ -592,7 +592,7 @@ pub fn c14(ctx: &Ctx) {
 	let dec_types: Vec<&&TypeOps> = types.iter().filter(|o| o.dec.is_some() && !o.has_tag("zst-elem")).collect();
 	if !dec_types.is_empty() {
 		let mut rng = ctx.rng_for("concat");
-		for round in 0..ctx.budget(300, 10_000) {
+		for round in 0..ctx.budget(3000, 60_000) {
 			let k = rng.range(2, 50) as usize;
 			let mut parts: Vec<(&TypeOps, Val, usize)> = Vec::new();
 			let mut all = Vec::new();
@@ -654,7 +654,7 @@ fn logical_len(v: &Val) -> Option<usize> {
 
 pub fn c18(ctx: &Ctx) {
 	let mut rep = Report::new("C18");
-	let n = ctx.budget(150, 6000);
+	let n = ctx.budget(1000, 20_000);
 	for ops in ctx.my_types() {
 		if ops.dec.is_none() {
 			continue;
@@ -825,7 +825,7 @@ pub const HAVE_HOOK: bool = cfg!(psc_verif);
 
 pub fn c19(ctx: &Ctx) {
 	let mut rep = Report::new("C19");
-	let n = ctx.budget(150, 6000);
+	let n = ctx.budget(1000, 20_000);
 	for ops in ctx.my_types() {
 		if ops.dec.is_none() {
 			continue;
@@ -876,6 +876,22 @@ pub fn c19(ctx: &Ctx) {
 							}
 							if ok && variant == 0 && spy.pos as u64 != count {
 								rep.violation(&format!("counted-consumed:{}", ops.name), format!("{}: count() = {count} but {} bytes were consumed", ops.name, spy.pos), replay_json("C19", ops, &b, &[]));
+							}
+						},
+					}
+				}
+				// the same without any type erasure between decoder and counter
+				{
+					rep.evaluations += 1;
+					rep.count("direct_counted_decodes");
+					let start = if HAVE_HOOK && rng.chance(1, 3) { u64::MAX - rng.below(b.len() as u64 + 3) } else { 0 };
+					match catch(|| (d.counted)(&b, start)) {
+						Err(p) => rep.violation(&format!("counted-panic:{}", ops.name), format!("{}: direct decode through CountedInput panicked: {p}", ops.name), replay_json("C19", ops, &b, &[])),
+						Ok((ok, count, delivered, pos)) => {
+							if count != start.saturating_add(delivered) {
+								rep.violation(&format!("counted-total-direct:{}", ops.name), format!("{}: count() = {count} after {} but the wrapped input delivered {delivered} bytes (start {start}) on {}", ops.name, if ok { "success" } else { "failure" }, hex(&b[..b.len().min(48)])), replay_json("C19", ops, &b, &[("start", start.to_string())]));
+							} else if ok && start == 0 && pos as u64 != count {
+								rep.violation(&format!("counted-consumed-direct:{}", ops.name), format!("{}: count() = {count} but {pos} bytes were consumed", ops.name), replay_json("C19", ops, &b, &[]));
 							}
 						},
 					}
